@@ -48,6 +48,7 @@ St0 == [p |-> Proc0,
         procBad |-> FALSE,       \* a finished test of this process was bad
         procSUFail |-> FALSE,    \* a layer setUp raised in this process
         suFailed |-> {}, tdFailed |-> {}, notimpl |-> {},
+        suFails |-> <<>>, tdFails |-> <<>>,   \* every failing hook call, in order
         crashes |-> 0, exits |-> 0, procs |-> 0,
         parentCant |-> FALSE,
         at |-> 0,                \* index of the event being consumed
@@ -66,6 +67,7 @@ C02(c) == <<"C02", c>>
 C03(c) == <<"C03", c>>
 C04(c) == <<"C04", c>>
 C05(c) == <<"C05", c>>
+C12(c) == <<"C12", c>>
 C16(c) == <<"C16", c>>
 
 (* the current test is over (bracket closed or another event proves it) *)
@@ -92,6 +94,7 @@ Step(w, o, s, e) ==
          LET s2 == Note1(s, "C01", SetUpEndErr(w, s.p, e.l))
          IN [s2 EXCEPT !.p = SetUpEnd(s2.p, e.l, e.s),
                        !.suFailed = IF e.s = "ok" THEN @ ELSE @ \cup {e.l},
+                       !.suFails = IF e.s = "ok" THEN @ ELSE Append(@, e.l),
                        !.procSUFail = @ \/ e.s # "ok"]
     [] e.e = "TDB" ->
          LET s1 == FinishCur(w, s)
@@ -102,6 +105,7 @@ Step(w, o, s, e) ==
          LET s2 == Note1(s, "C01", TearDownEndErr(w, s.p, e.l))
          IN [s2 EXCEPT !.p = TearDownEnd(s2.p, e.l, e.s),
                        !.tdFailed = IF e.s = "raise" THEN @ \cup {e.l} ELSE @,
+                       !.tdFails = IF e.s = "raise" THEN Append(@, e.l) ELSE @,
                        !.notimpl = IF e.s = "notimpl" THEN @ \cup {e.l} ELSE @,
                        !.parentCant = @ \/ (e.s = "notimpl" /\ s.role = "parent")]
     [] e.e = "TSU" ->
@@ -141,6 +145,82 @@ Step(w, o, s, e) ==
     [] OTHER -> s
 
 (* ----- end-of-trace clauses ------------------------------------------------*)
+RECURSIVE SumOver(_, _)
+SumOver(Op(_), S) ==
+  IF S = {} THEN 0
+  ELSE LET x == CHOOSE y \in S : TRUE IN Op(x) + SumOver(Op, S \ {x})
+
+CountIn(q, x) == Cardinality({k \in 1..Len(q) : q[k] = x})
+
+FailKinds == {"F", "SF", "U"}
+ErrKinds == {"E", "SE"}
+SkipKinds == {"S"}
+
+(* what actually happened, from the trace: runs of layer l in iteration it *)
+RunsOf(w, s, l, it) == {x \in s.seen : x[2] = it /\ LayerOf(w, x[1]) = l}
+DecoSkips(w, o, l) == {t \in Selected(w, o) : w.decoSkip[t] /\ LayerOf(w, t) = l}
+KindSum(w, X, K) == SumOver(LAMBDA x : CountKind(w, x[1], K), X)
+
+(* the k-th summary line of the report belongs to layer l, iteration it *)
+SummaryIter(r, k) ==
+  Cardinality({j \in 1..k : r.summaries[j][1] = r.summaries[k][1]})
+
+SummaryErr(w, o, s, r, k) ==
+  LET l == r.summaries[k][1]
+      it == SummaryIter(r, k)
+      X == RunsOf(w, s, l, it)
+      nd == Cardinality(DecoSkips(w, o, l))
+      ran == r.summaries[k][2]  f == r.summaries[k][3]
+      e == r.summaries[k][4]    sk == r.summaries[k][5]
+      lo == Cardinality(X)
+      slo == KindSum(w, X, SkipKinds)
+  IN IF f # KindSum(w, X, FailKinds) THEN "C12:layer-failures"
+     ELSE IF e # KindSum(w, X, ErrKinds) THEN "C12:layer-errors"
+     ELSE IF o.stop /\ ~(ran >= lo /\ ran <= lo + nd) THEN "C12:layer-ran"
+     ELSE IF ~o.stop /\ ran # lo + nd THEN "C12:layer-ran"
+     ELSE IF o.stop /\ ~(sk >= slo /\ sk <= slo + nd) THEN "C12:layer-skipped"
+     ELSE IF ~o.stop /\ sk # slo + nd THEN "C12:layer-skipped"
+     ELSE ""
+
+FirstSummaryErr(w, o, s, r) ==
+  LET bad == {k \in 1..Len(r.summaries) : SummaryErr(w, o, s, r, k) # ""}
+  IN IF bad = {} THEN ""
+     ELSE SummaryErr(w, o, s, r, CHOOSE k \in bad : \A j \in bad : k <= j)
+
+ListsErr(w, o, s, r) ==
+  LET T == {x[1] : x \in s.seen}
+      its(t) == {x \in s.seen : x[1] = t}
+  IN IF \E t \in T : CountIn(r.failIds, t) # Cardinality(its(t)) * CountKind(w, t, FailKinds)
+        THEN "C12:failure-list"
+     ELSE IF \E t \in T : CountIn(r.errIds, t) # Cardinality(its(t)) * CountKind(w, t, ErrKinds)
+        THEN "C12:error-list"
+     ELSE IF \E t \in SeqSet(r.failIds) \cup SeqSet(r.errIds) : t \notin T
+        THEN "C12:list-names-test-not-run"
+     ELSE IF r.failOther > 0 \/ r.errOther > r.subprocErrs THEN "C12:list-unknown-name"
+     ELSE IF Len(r.failLayers) > 0 THEN "C12:layer-in-failure-list"
+     \* a failing setUp of a base is reported under the layer being set up
+     ELSE IF \/ Cardinality({k \in 1..Len(r.errLayers) : r.errLayers[k][2] = "setUp"})
+                  # Len(s.suFails)
+             \/ \E k \in 1..Len(r.errLayers) :
+                  /\ r.errLayers[k][2] = "setUp"
+                  /\ Closure(w.bases, r.errLayers[k][1]) \cap s.suFailed = {}
+             \/ \E l \in Layers(w) :
+                  CountIn(r.errLayers, <<l, "tearDown">>) # CountIn(s.tdFails, l)
+        THEN "C12:layer-failure-list"
+     ELSE ""
+
+TotalsErr(w, o, s, r) ==
+  LET nd == SumOver(LAMBDA l : Cardinality(DecoSkips(w, o, l)), Layers(w) \cup {Unit})
+      ranAll == Cardinality(s.seen) + nd * o.repeat
+      f == KindSum(w, s.seen, FailKinds)
+      e == KindSum(w, s.seen, ErrKinds) + Len(s.suFails) + Len(s.tdFails) + s.crashes
+      sk == KindSum(w, s.seen, SkipKinds) + nd * o.repeat
+  IN IF r.total[2] # f THEN "C12:total-failures"
+     ELSE IF r.total[3] # e THEN "C12:total-errors"
+     ELSE IF r.total[4] # sk THEN "C12:total-skipped"
+     ELSE IF r.total[1] # ranAll THEN "C12:total-ran"
+     ELSE ""
+
 (* Layers whose tests must all have run: selected, closure set up fine, not   *)
 (* cut off by --stop-on-error, the run did not crash.                         *)
 LayerRunnable(w, s, l) == Closure(w.bases, l) \cap s.suFailed = {}
@@ -175,7 +255,23 @@ Final(w, o, s, r) ==
       c16 == IF o.stop /\ AnyBad(w, o, s) /\ ~o.list
                 /\ (~r.failed \/ (~r.hasSummary /\ s.seen # {}))
              THEN "C16:verdict" ELSE ""
-  IN NoteAll(s, <<C04(c04), C03(c03), C03(c03b), C01(c01), C02(c02), C16(c16)>>)
+      quiet == o.list \/ r.crashed # "" \/ w.importFails
+      c04b == IF quiet \/ o.verbose = 0 THEN ""
+              ELSE IF \E l \in s.suFailed :
+                        ~\E k \in 1..Len(r.errLayers) :
+                            /\ r.errLayers[k][2] = "setUp"
+                            /\ l \in Closure(w.bases, r.errLayers[k][1])
+                   THEN "C04:layer-setUp-fault-not-recorded"
+              ELSE IF \E l \in s.tdFailed : CountIn(r.errLayers, <<l, "tearDown">>) = 0
+                   THEN "C04:layer-tearDown-fault-not-recorded"
+              ELSE IF \E x \in s.seen : IsBad(w, x[1]) /\ x[1] \notin SeqSet(r.failIds) \cup SeqSet(r.errIds)
+                   THEN "C04:test-fault-not-recorded"
+              ELSE ""
+      c12a == IF quiet THEN "" ELSE FirstSummaryErr(w, o, s, r)
+      c12b == IF quiet \/ o.verbose = 0 THEN "" ELSE ListsErr(w, o, s, r)
+      c12c == IF quiet \/ ~r.hasTotal \/ o.stop THEN "" ELSE TotalsErr(w, o, s, r)
+  IN NoteAll(s, <<C04(c04), C04(c04b), C03(c03), C03(c03b), C01(c01), C02(c02),
+                  C16(c16), C12(c12a), C12(c12b), C12(c12c)>>)
 
 (* ----- behaviour -----------------------------------------------------------*)
 Ev(t) == Traces[t].ev
